@@ -5,13 +5,16 @@ computed by `osum`, never through the carrier), operation lines apply the same o
 compares value / shape / real-complex kind of every result, checks that no operand (carrier, dense, sparse, index array, or the
 caller's source vectors) changed, and finally zeroes a row and a column of every carrier result to show that it shares no storage with an
 operand. The program text is executed here and is at the same time the replay file. Data are small integers (exact in floating point).
+`scaling` multiplies them by powers of two (2**-80 .. 2**80; all dyads of one carrier have the same product scale, so the dense reference stays exact and a
+dropped non-zero dyad is visible in the dense result); `histories` interleaves every read operation with in-place modifications of one carrier.
 
 Findings of the unchanged tree that are kept visible (tagged, never skipped):
   C15-getitem-empty        d[i, :], d[:, j], d[ar, ar] on a carrier with zero dyads return the int 0 instead of zeros of the indexed shape
   C15-kind-lost-on-zero    a complex carrier whose dyads all vanish (c*0, c@0, sliced/zeroed and copied ...) reports real, dense stays complex
   C15-iadd-self            d += d / d -= d never terminate (add_dyad appends to the list it iterates over)
   C15-getitem-list-pair    d[[0,1],[1,0]] (python lists) is taken as an outer selection (carrier), dense numpy gives the pairwise entries
-  C15-getitem-real-then-complex  d[i, :], d[i, j], d[ar, ar] raise a casting error when an earlier dyad is real and a later one complex (res += in place)
+  C15-getitem-real-then-complex  d[i, :], d[i, j], d[ar, ar] raise a casting error when an earlier dyad is real and a later one complex (res += in place);
+                           `histories` shows the same in-place accumulation failing for an integer dyad followed by a float one (e.g. after d_int += d_float)
   C15-setitem-all-noop     d[:, :] = 0 changes nothing (neither the row nor the column branch is taken), dense zeroes everything
   C15-contract-multi-dtype contract_multi([real, complex]) allocates the result from mats[0] only and discards imaginary parts
 """
@@ -89,7 +92,9 @@ def cmp(got, want):
     bad = []
     if isd and (tuple(got.shape) != W.shape or got.size != W.size or not np.array_equal(got.toarray(), X)):
         bad.append('shape: attribute %s / size / toarray disagree with todense' % (got.shape,))
-    tol = 1e-12 * max(1.0, float(np.abs(W).max()) if W.size else 1.0)
+    wmax = float(np.abs(W).max()) if W.size else 0.0
+    # all data are integers times powers of two, every reference entry is exact: 1e-12 of the largest reference entry (badly scaled results are measured on their own scale)
+    tol = 1e-12 * (wmax if 0.0 < wmax < 1.0 else max(1.0, wmax))
     if not (np.all(np.isfinite(X)) and np.allclose(X, W, rtol=0, atol=tol)):
         bad.append('values')
     gc, wc = bool(np.iscomplexobj(X)), bool(np.iscomplexobj(W))
@@ -784,5 +789,294 @@ def programs(r, tier, seed):
     q.flush()
 
 
+# --------------------------------------------------------------------------------------------------------------- scaling
+PATTERNS['xm'] = ['cf', 'ff', 'fc']   # a complex dyad first: outside the region of C15-getitem-real-then-complex
+
+# per dyad: (exponent of u, exponent of v); 'z' is an exactly zero vector (the only thing a carrier may drop). Every non-zero dyad of one carrier has the
+# same product scale 2**(eu+ev): all entries of the dense reference and of every result are integers times one power of two, hence exact.
+SPECS = {'tiny x huge': [(-40, 40)],
+         'mixed': [(0, 0), (-40, 40), ('z', 40), (40, -40)],
+         '60': [(-60, 60), (60, -60), (0, 0)],
+         'all tiny': [(-40, -40), (-80, 0), (-40, 'z'), (0, -80)],
+         'one side': [(-40, 0), (0, -40)],
+         'huge': [(40, 40), (0, 80), (80, 0)],
+         'tiny 60': [(-60, 0), ('z', -60), (0, -60), (-30, -30)]}
+
+SCALE_PAIRS = [('2.0**-40', '2.0**40'), ('2.0**40', '2.0**-40'), ('-2.0**-60', '-2.0**60'), ('np.float64(2.0**-52)', 'np.float64(2.0**52)'),
+               ('(2.0**-45 * 1j)', '(-2.0**45 * 1j)'), ('2.0**70', '2.0**-70'), ('np.array(2.0**-40)', 'np.array(2.0**40)')]
+
+
+def spec_scale(spec):
+    return [eu + ev for eu, ev in spec if 'z' not in (eu, ev)][0]
+
+
+def slit(a, e):
+    return lit(a) if e == 0 else f"2.0**{e} * {lit(a)}"
+
+
+def nonzero(a):
+    if not np.any(a):
+        a.flat[-1] = 1
+    return a
+
+
+def scarrier(rng, i, shape, spec, pat):
+    """like carrier(), every vector multiplied by the power of two of its spec entry"""
+    m, n = shape
+    us, vs = [], []
+    for k, (eu, ev) in enumerate(spec):
+        ku, kv = PATTERNS[pat][k % len(PATTERNS[pat])]
+        u, v = nonzero(vec(rng, m, ku)), nonzero(vec(rng, n, kv))
+        us.append(f"np.zeros({m})" if eu == 'z' else slit(u, eu))
+        vs.append(f"np.zeros({n})" if ev == 'z' else slit(v, ev))
+    sh = f", shape=({m}, {n})" if rng.integers(0, 2) else ""
+    return (f"_u{i} = [{', '.join(us)}]\n_v{i} = [{', '.join(vs)}]\n"
+            f"d{i} = D(_u{i}, _v{i}{sh})\nm{i} = osum(_u{i}, _v{i}, ({m}, {n}))\n")
+
+
+@bound('carriers whose vectors are non-zero but badly scaled: shapes {1x1,3x3,2x4,3x1} (all shapes thorough) x 7 scale layouts (2**-40 u with 2**40 v, 2**-60/2**60, both '
+       'factors tiny with product scale 2**-80 / 2**-60 / 2**-40, both huge, each mixed with ordinary dyads and exactly-zero vectors) x dtype patterns ff/cc/fc/cf/cf-ff-fc '
+       '(3 of 5 per layout in quick); construction from lists, tuples, bare vectors, python lists, blocks (also nearly cancelling rows), add_dyad with fac 2**k and -0.5, '
+       '+= / -= of rescaled carriers, 7 scalars 2**k (real, complex, numpy) from either side and their round trips (s*D)*(1/s), 12 slicings, @ / dot / __rdot__ with dense, '
+       'sparse, vector and carrier operands also pre-multiplied by 2**-45 / 2**45, T/conj/real/imag/neg compositions, diagonal, contract (trace, dense, scaled, batched, '
+       'sliced, sparse) and contract_multi; comparison relative to the largest exact reference entry')
+def scaling(r, tier, seed):
+    q = Deferred(r)
+    rng = np.random.default_rng(seed + 158)
+    quick = tier == 'quick'
+    P = ['ff', 'cc', 'fc', 'cf', 'xm']
+    names = list(SPECS)
+    for si, sh in enumerate([(1, 1), (3, 3), (2, 4), (3, 1)] if quick else shapes(tier)):
+        m, n = sh
+        for ki, sn in enumerate(names):
+            for pi, pat in enumerate(P):
+                if quick and (si + ki + pi) % 5 in (1, 3):
+                    continue
+                spec, spec1, spec2 = SPECS[sn], SPECS[names[(ki + si + 1) % len(names)]], SPECS[names[(ki + pi + 3) % len(names)]]
+                E0, E1 = spec_scale(spec), spec_scale(spec1)
+                eu, ev = spec[0]
+                ku, kv = PATTERNS[pat][0]
+                s = scarrier(rng, 0, sh, spec, pat) + scarrier(rng, 1, sh, spec1, P[(pi + 1) % 5]) + scarrier(rng, 2, (n, 2), spec2, P[(pi + 2) % 5])
+                Ub, Vb, a = mat(rng, (2, m), ku), mat(rng, (3, n), kv), nonzero(vec(rng, m, ku))
+                if not np.any(Ub.sum(0)):
+                    Ub[0, 0] += 1
+                if not np.any(Vb.sum(0)):
+                    Vb[0, -1] += 1
+                Un = np.stack([a, -a])
+                Un[1, -1] += 1     # rows cancel except for one entry: the block sum is tiny, not zero
+                dense = dict(A=((n, 3), 'f'), Ac=((n, 2), 'c'), L=((2, m), 'f'), Lc=((3, m), 'c'), x=((n,), 'f'), xc=((n,), 'c'), y=((m,), 'f'), yc=((m,), 'c'),
+                             Bf=((m, n), 'f'), Bc=((m, n), 'c'), Bb=((3, m, n), 'f'), Brc=((3, 2), 'c'), B23=((4, 2, 3), 'f'))
+                s += f"U = {slit(Ub, eu)}\nV = {slit(Vb, ev)}\nUn = {slit(Un, eu)}\nf = 2.0**{E0 - E1}\n"
+                s += "".join(f"{nm} = {lit(mat(rng, shp, k))}\n" for nm, (shp, k) in dense.items())
+                s += (f"R1 = {lit(rng.integers(0, m, 3))}\nC1 = {lit(rng.integers(0, n, 3))}\nC2 = {lit(rng.integers(0, n, 2))}\nRB = {lit(rng.integers(0, m, (4, 2)))}\n"
+                      f"CB = {lit(rng.integers(0, n, (4, 3)))}\nI1 = np.array([{m - 1}, 0, 0])\nJ1 = np.array([0, {n - 1}, 0])\nMk = np.array({[bool(i % 2 == 0) for i in range(n)]})\n")
+                ops = [('d0', 'm0'), ('d1', 'm1'), ('d2', 'm2'), '_u0', '_v0', '_u1', '_v1', '_u2', '_v2', 'U', 'V', 'Un', 'R1', 'C1', 'C2', 'RB', 'CB', 'I1', 'J1', 'Mk'] + list(dense)
+                items = []
+
+                def it(name, op, results):
+                    items.append(((name, sh, sn, pat), op, results, f'{name} (badly scaled non-zero vectors: {sn})', None))
+                z = f"({m}, {n})"
+                it('lists / tuples / bare vectors / python lists',
+                   f"c1 = d0.copy()\nt0 = D(tuple(_u0), tuple(_v0))\nb0 = D(_u0[0], _v0[0])\nwb = osum(_u0[:1], _v0[:1], {z})\np0 = D([a.tolist() for a in _u0], [a.tolist() for a in _v0])\n",
+                   [('c1', 'm0'), ('t0', 'm0'), ('b0', 'wb'), ('p0', 'm0')])   # d0 itself is compared with m0 as an operand
+                it('blocks', f"k1 = D(U, V)\nw1 = osum([U], [V], {z})\nk2 = D([U, _u0[0]], [V, _v0[0]])\nw2 = osum([U, _u0[0]], [V, _v0[0]], {z})\nk3 = D(Un, V)\nw3 = osum([Un], [V], {z})\n"
+                   f"k4 = D([Un, U], [V, V])\nw4 = w3 + w1\n", [('k1', 'w1'), ('k2', 'w2'), ('k3', 'w3'), ('k4', 'w4')])
+                it('add_dyad with and without fac',
+                   f"e = D(shape={z})\ne.add_dyad(_u0, _v0)\nk1 = e.copy()\ne.add_dyad(_u1, _v1, fac=f)\nw2 = m0 + f * m1\nk2 = e.copy()\ne.add_dyad(_u0[0], _v0[0], -0.5)\n"
+                   f"w3 = w2 - 0.5 * osum(_u0[:1], _v0[:1], {z})\nk3 = e.copy()\ne.add_dyad(U, V)\ne.add_dyad(Un, V, fac=-2.0)\nw4 = w3 + osum([U], [V], {z}) - 2.0 * osum([Un], [V], {z})\n",
+                   [('k1', 'm0'), ('k2', 'w2'), ('k3', 'w3'), ('e', 'w4')])
+                it('+= / -=', "a = d0.copy()\nk0 = a\na += f * d1\nw1 = m0 + f * m1\nc1 = a.copy()\na -= d1 * f\nw2 = w1 - m1 * f\nc2 = a.copy()\na -= 2 * d0\nw3 = w2 - 2 * m0\nc3 = a.copy()\na += d0\na += d0.T.T\n"
+                   "w4 = w3 + m0 + m0\nb = (f * d1).copy()\nb -= d0\nw5 = f * m1 - m0\nsame = a is k0\nyes = True\n", [('c1', 'w1'), ('c2', 'w2'), ('c3', 'w3'), ('a', 'w4'), ('b', 'w5'), ('same', 'yes')])
+                it('+ / -', "r1 = d0 + f * d1\nw1 = m0 + f * m1\nr2 = d0 - d1 * f\nw2 = m0 - m1 * f\nr3 = f * d1 - d0\nw3 = f * m1 - m0\nr4 = -d0\nw4 = -m0\nr5 = d0 + f * d1 - d0\nw5 = m0 + f * m1 - m0\n",
+                   [('r1', 'w1'), ('r2', 'w2'), ('r3', 'w3'), ('r4', 'w4'), ('r5', 'w5')])
+                for sc, inv in SCALE_PAIRS:
+                    it(f'scalar {sc}', f"r1 = {sc} * d0\nw1 = {sc} * m0\nr2 = d0 * {sc}\nr3 = ({sc} * d0) * {inv}\nw3 = ({sc} * m0) * {inv}\nr4 = {inv} * (d0 * {sc})\nr5 = ({inv} * ({sc} * d0).T).T\n"
+                       f"r6 = (({sc} * d0) @ A) * {inv}\nw6 = (m0 @ A) * {sc} * {inv}\n", [('r1', 'w1'), ('r2', 'w1'), ('r3', 'w3'), ('r4', 'w3'), ('r5', 'w3'), ('r6', 'w6')])
+                for I, J in (('1:', ':'), (':', ':-1'), ('::-1', '::2'), ('I1', ':'), (':', 'Mk'), ('-1:', 'J1'), ('0', ':'), (':', '-1'), (f'{m - 1}', '0'), ('I1', 'J1'), ('-1', '::-1'), (':', ':')):
+                    it(f'd[{I}, {J}]', f"r = d0[{I}, {J}]\nw = m0[{I}, {J}]\n", [('r', 'w')])
+                it('@ dense', "r1 = d0 @ A\nw1 = m0 @ A\nr2 = L @ d0\nw2 = L @ m0\nr3 = d0 @ Ac\nw3 = m0 @ Ac\nr4 = Lc @ d0\nw4 = Lc @ m0\nr5 = L @ d0 @ A\nw5 = L @ m0 @ A\n",
+                   [('r1', 'w1'), ('r2', 'w2'), ('r3', 'w3'), ('r4', 'w4'), ('r5', 'w5')])
+                it('@ rescaled dense', "r1 = d0 @ (2.0**-45 * A)\nw1 = m0 @ (2.0**-45 * A)\nr2 = (2.0**45 * L) @ d0\nw2 = (2.0**45 * L) @ m0\nr3 = (2.0**-45 * Lc) @ d0 @ (2.0**45 * Ac)\nw3 = Lc @ m0 @ Ac\n"
+                   "r4 = (d0 @ (2.0**-45 * A)) * 2.0**45\nw4 = m0 @ A\nr5 = 2.0**-60 * ((2.0**60 * L) @ d0)\nw5 = L @ m0\n", [('r1', 'w1'), ('r2', 'w2'), ('r3', 'w3'), ('r4', 'w4'), ('r5', 'w5')])
+                it('vectors / dot', "r1 = d0 @ x\nw1 = m0 @ x\nr2 = y @ d0\nw2 = y @ m0\nr3 = d0.dot(2.0**-45 * xc)\nw3 = m0 @ (2.0**-45 * xc)\nr4 = d0.__rdot__(2.0**45 * yc)\nw4 = (2.0**45 * yc) @ m0\n"
+                   "r5 = d0.dot(2.0**-45 * A)\nw5 = m0 @ (2.0**-45 * A)\nr6 = d0.__rdot__(L)\nw6 = L @ m0\nr7 = (L @ d0) @ (2.0**45 * x)\nw7 = L @ m0 @ (2.0**45 * x)\n",
+                   [('r1', 'w1'), ('r2', 'w2'), ('r3', 'w3'), ('r4', 'w4'), ('r5', 'w5'), ('r6', 'w6'), ('r7', 'w7')])
+                it('@ sparse', "r1 = d0 @ sp.csr_matrix(2.0**-45 * A)\nw1 = m0 @ (2.0**-45 * A)\nr2 = sp.coo_matrix(2.0**45 * Lc) @ d0\nw2 = (2.0**45 * Lc) @ m0\n", [('r1', 'w1'), ('r2', 'w2')])
+                it('@ carrier', "r1 = d0 @ d2\nw1 = m0 @ m2\nr2 = d2.T @ d0.T\nw2 = m2.T @ m0.T\nr3 = d0.T @ d0\nw3 = m0.T @ m0\nr4 = d0 @ d0.conj().T\nw4 = m0 @ m0.conj().T\nr5 = (2.0**-45 * d0) @ (d2 * 2.0**45)\n",
+                   [('r1', 'w1'), ('r2', 'w2'), ('r3', 'w3'), ('r4', 'w4'), ('r5', 'w1')])
+                for name, a_, b_ in UNARY:
+                    if name in ('T', 'conj', 'real', 'imag', 'neg', 'copy', 'todense', 'add self', 'sub self', 'T.T', 'conj.T', 'real.T', 'T.imag', 'neg.conj', 'real+1j*imag', 'conj.imag', 'iscomplex'):
+                        it(name, a_ + "\n" + b_ + "\n", [('r', 'w')])
+                it('diagonal', "".join(f"r{k + 1} = d0.diagonal({k})\nw{k + 1} = np.diagonal(m0, {k}) + 0\n" for k in (-1, 0, 1)), [('r0', 'w0'), ('r1', 'w1'), ('r2', 'w2')])
+                lines = [("contract(Bf)", "cref(m0, Bf)"), ("contract(2.0**-45 * Bc)", "cref(m0, 2.0**-45 * Bc)"), ("contract(2.0**45 * Bb)", "cref(m0, 2.0**45 * Bb)"),
+                         ("contract(Brc, R1, C2)", "cref(m0, Brc, R1, C2)"), ("contract(rows=R1, cols=C1)", "cref(m0, None, R1, C1)"), ("contract(B23, RB, CB)", "cref(m0, B23, RB, CB)"),
+                         ("contract(sp.csr_matrix(2.0**-45 * Bf))", "cref(m0, 2.0**-45 * Bf)"), ("contract(sp.coo_matrix(Bc))", "cref(m0, Bc)")] + ([("contract()", "cref(m0)")] if m == n else [])
+                for call, ref in lines:
+                    it(call, f"r = d0.{call}\nw = {ref}\n", [('r', 'w')])
+                # entries of different scale are brought to one scale (exactly, by powers of two) before the comparison
+                it('contract_multi', "S = [sp.coo_matrix(Bf), None, sp.csr_matrix(2.0**-45 * Bf), 2.0**40 * Bf]\nr = d0.contract_multi(S) / np.array([1, 1, 2.0**-45, 2.0**40])\n"
+                   "w = np.array([cref(m0, Bf), 0, cref(m0, Bf), cref(m0, Bf)]) + 0 * m0.dtype.type(0)\nSc = [sp.coo_matrix(2.0**-45 * Bc), sp.coo_matrix(Bf)]\nr2 = d0.contract_multi(Sc) / np.array([2.0**-45, 1])\n"
+                   "w2 = np.array([cref(m0, Bc), cref(m0, Bf)])\n", [('r', 'w'), ('r2', 'w2')])
+                run_many(q, s, ops, items, probe=True)
+    q.flush()
+
+
+# ------------------------------------------------------------------------------------------------------------- histories
+def zero_kinds(n):
+    """subscripts for d[I, :] = 0 / d[:, J] = 0 on an axis of length n (the null slice is C15-setitem-all-noop and is taken, tagged, in `indexing`)"""
+    return ['0', '-1', f'np.int64({n - 1})', '1:', ':1', '::2', '-1:', f'np.array([{n - 1}, 0, 0])', 'np.array([-1])', f'np.array({[bool(i % 2 == 0) for i in range(n)]})',
+            f'[{n - 1}]', 'np.zeros(0, dtype=int)', '0:0', f'slice(0, {n}, 3)']
+
+
+ZEROS = ['0', '0.0', 'False', 'np.float64(0)', '-0.0', 'np.int64(0)']
+
+# how the carrier of the history came into being: (name, expression in terms of the untouched carrier src0 = D(_u0, _v0), is it the transpose of src0)
+FORMS = [('constructed', 'D(_u0, _v0, shape=src0.shape)', False), ('copy', 'src0.copy()', False), ('copy of copy', 'src0.copy().copy()', False), ('T.T', 'src0.T.T', False),
+         ('T', 'src0.T', True), ('transpose of copy', 'src0.copy().transpose()', True), ('copy of T', 'src0.T.copy()', True), ('T of D(v, u)', 'D(_v0, _u0).T', False),
+         ('+d', '+src0', False), ('-(-d)', '-(-src0)', False), ('d[:, :]', 'src0[:, :]', False), ('add_dyad', 'D(shape=src0.shape).add_dyad(_u0, _v0)', False),
+         ('d + empty', 'src0 + D(shape=src0.shape)', False), ('conj.conj', 'src0.conj().conj()', False), ('1 * d.T', '1 * src0.T', True)]
+
+DOUBLE = ('todense', 'diagonal0', 'contract_B', 'contract_batch_rows_cols', 'contract_multi_S', 'contract_multi_Sc', 'slice1', 'slice5', 'row0', 'pairs', 'dot')
+
+
+def read_block(tag, m, n, uni_ok):
+    """source text making every read operation on d0 (those in DOUBLE twice) with the value the current dense mirror wd gives next to it; returns (text, results)"""
+    R = [('todense', 'd0.todense()', 'wd.copy()'), ('toarray', 'd0.toarray()', 'wd.copy()'), ('copy', 'd0.copy()', 'wd.copy()'), ('T', 'd0.T', 'wd.T.copy()'),
+         ('diagonal0', 'd0.diagonal()', 'np.diagonal(wd) + 0'), ('diagonal1', 'd0.diagonal(1)', 'np.diagonal(wd, 1) + 0'), ('diagonal_1', 'd0.diagonal(-1)', 'np.diagonal(wd, -1) + 0'),
+         ('contract_B', 'd0.contract(Bf)', 'cref(wd, Bf)'), ('contract_Bc', 'd0.contract(Bc)', 'cref(wd, Bc)'), ('contract_coo', 'd0.contract(Sp0)', 'cref(wd, Bf)'), ('contract_batch', 'd0.contract(Bb)', 'cref(wd, Bb)'),
+         ('contract_batch_rows_cols', 'd0.contract(B23, RB, CB)', 'cref(wd, B23, RB, CB)'), ('contract_rows_cols', 'd0.contract(rows=R1, cols=C1)', 'cref(wd, None, R1, C1)'),
+         ('contract_multi_S', 'd0.contract_multi(S)', 'np.array([cref(wd, Bf), 0, cref(wd, Bg), cref(wd, Bf), 0]) + 0 * wd.dtype.type(0)'),
+         ('contract_multi_Sc', 'd0.contract_multi(Sc)', 'np.array([cref(wd, Bc), cref(wd, Bf), 0])'),
+         ('slice1', 'd0[1:, :]', 'wd[1:, :].copy()'), ('slice2', 'd0[::-1, ::2]', 'wd[::-1, ::2].copy()'), ('slice3', 'd0[I1, :]', 'wd[I1, :].copy()'), ('slice4', 'd0[:, Mk]', 'wd[:, Mk].copy()'),
+         ('slice5', 'd0[:, :]', 'wd.copy()'), ('dot', 'd0 @ x', 'wd @ x'), ('rdot', 'y @ d0', 'y @ wd')]
+    if m == n:
+        R.append(('trace', 'd0.contract()', 'cref(wd)'))
+    if uni_ok:
+        R += [('row0', 'd0[0, :]', 'wd[0, :].copy()'), ('col_last', 'd0[:, -1]', 'wd[:, -1].copy()'), ('element', f'd0[{m - 1}, 0]', f'wd[{m - 1}, 0]'), ('pairs', 'd0[I1, J1]', 'wd[I1, J1].copy()')]
+    text, res = "", []
+    for nm, expr, ref in R:
+        text += f"{tag}_{nm} = {expr}\n{tag}_{nm}_w = {ref}\n"
+        res.append((f'{tag}_{nm}', f'{tag}_{nm}_w'))
+        if nm in DOUBLE:
+            text += f"{tag}_{nm}_again = {expr}\n"
+            res.append((f'{tag}_{nm}_again', f'{tag}_{nm}_w'))
+    return text, res
+
+
+SCRIBBLE = ("_t = d0.todense()\n_t += 7.0\n_g = d0.diagonal()\n_g -= 1.0\n_q = d0.contract_multi(S)\n_q += 1.0\n_c = d0.copy()\n_c[0, :] = 0\n_c[:, -1] = 0\n_c += d1\n_s = d0[:, :]\n_s[:, 0] = 0\n"
+            "_k = d0.T\n_k[0, :] = 0\n_k -= d2.T\n_e = d0[::-1, :]\n_e[-1:, :] = 0\n")
+
+
+def describe(mods):
+    return ', '.join(' '.join(str(x) for x in md[:2]) for md in mods)
+
+
+def real_before_complex(kinds):
+    """d[i, :], d[:, j], d[i, j], d[ar, ar] accumulate in place into the product of the first dyad: they raise as soon as a later dyad has a wider type (int < float < complex)"""
+    return any(a < b for i, a in enumerate(kinds) for b in kinds[i + 1:])
+
+
+def dyad_kinds(nd, pat, negated=False):
+    """type rank of u_k * v_k for every dyad: 0 int, 1 float, 2 complex (-= stores -1.0 * u: at least float)"""
+    pp = [PATTERNS[pat][k % len(PATTERNS[pat])] for k in range(nd)]
+    return [2 if 'c' in p else (0 if p == 'ii' and not negated else 1) for p in pp]
+
+
+def history(q, key, rng, sh, form, c0, c1, c2, mods, what):
+    """one carrier d0 (made from src0 by `form`), mirror wd; mods: ('rows', I, z) | ('cols', J, z) | ('iadd', j) | ('isub', j) | ('scribble',); all reads before and after every mod"""
+    fname, fexpr, tr = form
+    m, n = sh
+    s = carrier(rng, 0, sh[::-1] if tr else sh, c0[0], c0[1]) + f"src0 = d0\nd0 = {fexpr}\nwd = m0{'.T' if tr else ''}.copy()\n"
+    s += carrier(rng, 1, sh, c1[0], c1[1]) + carrier(rng, 2, sh, c2[0], c2[1])
+    dense = dict(Bf=((m, n), 'f'), Bg=((m, n), 'f'), Bc=((m, n), 'c'), Bb=((3, m, n), 'f'), B23=((4, 2, 3), 'c'), x=((n,), 'f'), y=((m,), 'c'))
+    s += "".join(f"{nm} = {lit(mat(rng, shp, k))}\n" for nm, (shp, k) in dense.items())
+    s += (f"R1 = {lit(rng.integers(0, m, 3))}\nC1 = {lit(rng.integers(0, n, 3))}\nRB = {lit(rng.integers(0, m, (4, 2)))}\nCB = {lit(rng.integers(0, n, (4, 3)))}\n"
+          f"I1 = np.array([{m - 1}, 0, 0])\nJ1 = np.array([0, {n - 1}, 0])\nMk = np.array({[bool(i % 2 == 0) for i in range(n)]})\n"
+          f"Sp0 = sp.coo_matrix(Bf)\nSp1 = sp.csr_matrix(Bg)\nSp2 = sp.coo_matrix(({m}, {n}))\nSp3 = sp.coo_matrix(Bc)\n"
+          "S = [Sp0, None, Sp1, Bf, Sp2]      # the same list objects are passed to contract_multi at every step\nSc = [Sp3, Sp0, None]\n")
+    operands = [('src0', 'm0'), ('d1', 'm1'), ('d2', 'm2'), '_u0', '_v0', '_u1', '_v1', '_u2', '_v2', 'R1', 'C1', 'RB', 'CB', 'I1', 'J1', 'Mk', 'Sp0', 'Sp1', 'Sp2', 'Sp3'] + list(dense)
+    kinds = [dyad_kinds(*c) for c in (c0, c1, c2)]
+    nkinds = [dyad_kinds(*c, negated=True) for c in (c0, c1, c2)]
+    cur = list(kinds[0])
+    op, results = read_block('step0', m, n, not real_before_complex(cur))
+    modtext, unsafe_at = "", (("", 0) if real_before_complex(cur) else None)
+    for k, md in enumerate(mods):
+        if md[0] == 'rows':
+            t = f"d0[{md[1]}, :] = {md[2]}\nwd = wd.copy()\nwd[{md[1]}, :] = 0\n"
+        elif md[0] == 'cols':
+            t = f"d0[:, {md[1]}] = {md[2]}\nwd = wd.copy()\nwd[:, {md[1]}] = 0\n"
+        elif md[0] == 'iadd':
+            t = f"d0 += d{md[1]}\nwd = wd + m{md[1]}\n"
+            cur += kinds[md[1]]
+        elif md[0] == 'isub':
+            t = f"d0 -= d{md[1]}\nwd = wd - m{md[1]}\n"
+            cur += nkinds[md[1]]
+        else:
+            t = SCRIBBLE
+        modtext += t
+        if unsafe_at is None and real_before_complex(cur):
+            unsafe_at = (modtext, k + 1)
+        b, rs = read_block(f'step{k + 1}', m, n, not real_before_complex(cur))
+        op += f"# step {k + 1}\n" + t + b
+        results += rs
+    ns = run(q, key, s, op, results + [('d0', 'wd')], operands, what)
+    if ns is not None:
+        for k in range(len(mods)):
+            q.case((key, 'step', k + 1))
+    if unsafe_at is not None:
+        # d[i, :] / d[:, j] / d[i, j] / d[ar, ar] once a dyad of narrower type precedes a wider one: known to raise; kept visible, one program per history
+        run(q, (key, 'element access'), s, unsafe_at[0] + f"g1 = d0[0, :]\nw1 = wd[0, :].copy()\ng2 = d0[:, -1]\nw2 = wd[:, -1].copy()\ng3 = d0[{m - 1}, 0]\nw3 = wd[{m - 1}, 0]\ng4 = d0[I1, J1]\nw4 = wd[I1, J1].copy()\n",
+            [('g1', 'w1'), ('g2', 'w2'), ('g3', 'w3'), ('g4', 'w4')], operands, what + f' (row/column/element access after step {unsafe_at[1]})', hint={'raise': F_GETMIX})
+
+
+@bound('one carrier d0 with its dense mirror through sequences of in-place modifications, every read operation before and after each of them: reads = todense, toarray, copy, T, '
+       'diagonal(0,+1,-1), contract (dense real/complex, coo, batched, batched rows+cols, rows/cols only, trace), contract_multi with the same two list objects every time, 5 '
+       'slicings, 4 row/column/element accesses, d @ x, y @ d (11 of them called twice per step); modifications = d[I, :] = 0 and d[:, J] = 0 with 14 index kinds (int, numpy int, '
+       'slices, index arrays with repeats / negative / empty, boolean mask, python list, slice object) and 6 spellings of zero, += and -= of two other carriers (0-2 dyads), and the '
+       'caller overwriting returned arrays / modifying copies, transposes and slices. d0 is made in 15 ways (constructed, copy, T, T.T, copy of T, slices, +, -(-d), add_dyad, '
+       'conj.conj, ...) from a carrier that must stay untouched. Systematic: 15 forms x 3 shapes {3x3,2x4,3x1}, fixed 9-step sequence with rotating index kinds and 7 '
+       'dtype-pattern triples (one per form and shape in quick, all 7 thorough); row/column/element access is read in a separate tagged program once it is known to raise; '
+       'random: 60 programs x 6 steps [quick] / 600 x 10 [thorough] over shapes {3x3,2x4,4x2,1x3,3x1}, 1-3 dyads, patterns ff/cc/fc/cf/ii/mix')
+def histories(r, tier, seed):
+    q = Deferred(r)
+    quick = tier == 'quick'
+    rng = np.random.default_rng(seed + 159)
+    combos = [(('ff', 'ff', 'ff')), ('cc', 'cc', 'ff'), ('fc', 'ff', 'cf'), ('ff', 'cc', 'fc'), ('cf', 'fc', 'ii'), ('mix', 'ff', 'cc'), ('ii', 'ff', 'ff')]
+    t = 0
+    for form in FORMS:
+        for sh in [(3, 3), (2, 4), (3, 1)]:
+            for _ in range(1 if quick else len(combos)):
+                m, n = sh
+                zr, zc = zero_kinds(m), zero_kinds(n)
+                p0, p1, p2 = combos[t % len(combos)]
+                mods = [('rows', zr[t % len(zr)], ZEROS[t % 6]), ('iadd', 1), ('cols', zc[(t + 3) % len(zc)], ZEROS[(t + 1) % 6]), ('scribble',), ('isub', 2),
+                        ('rows', zr[(t + 5) % len(zr)], ZEROS[(t + 2) % 6]), ('cols', zc[(2 * t + 1) % len(zc)], ZEROS[(t + 3) % 6]), ('iadd', 1), ('isub', 1)]
+                history(q, ('systematic', form[0], sh, p0, p1, p2, t), rng, sh, form, (1 + t % 3, p0), (1 + (t + 1) % 2, p1), ((t + 2) % 3, p2), mods, f'history on d0 = {form[0]}: ' + describe(mods))
+                t += 1
+    nprog, depth = (60, 6) if quick else (600, 10)
+    P = ['ff', 'cc', 'fc', 'cf', 'ii', 'mix']
+    for pi in range(nprog):
+        if watchdog.hits >= 6:
+            break
+        rng = np.random.default_rng([seed, 159, pi])
+        sh = [(3, 3), (2, 4), (4, 2), (1, 3), (3, 1)][pi % 5]
+        form = FORMS[int(rng.integers(0, len(FORMS)))]
+        zr, zc = zero_kinds(sh[0]), zero_kinds(sh[1])
+        mods = []
+        for _ in range(depth):
+            c = int(rng.integers(0, 10))
+            if c < 3:
+                mods.append(('rows', zr[int(rng.integers(0, len(zr)))], ZEROS[int(rng.integers(0, 6))]))
+            elif c < 6:
+                mods.append(('cols', zc[int(rng.integers(0, len(zc)))], ZEROS[int(rng.integers(0, 6))]))
+            elif c < 9:
+                mods.append((('iadd', 'isub')[int(rng.integers(0, 2))], 1 + int(rng.integers(0, 2))))
+            else:
+                mods.append(('scribble',))
+        cs = [(int(rng.integers(lo, hi)), P[int(rng.integers(0, len(P)))]) for lo, hi in ((1, 4), (0, 3), (0, 3))]
+        history(q, ('random', pi), rng, sh, form, cs[0], cs[1], cs[2], mods, f'history on d0 = {form[0]}: ' + describe(mods))
+    q.flush()
+
+
 CHECKS = [('construction', construction), ('unary_scalar', unary_scalar), ('binary', binary), ('products', products), ('indexing', indexing),
-          ('contraction', contraction), ('unshaped', unshaped), ('programs', programs)]
+          ('contraction', contraction), ('unshaped', unshaped), ('programs', programs), ('scaling', scaling), ('histories', histories)]
